@@ -172,7 +172,7 @@ def run(F, chk):
     # ---------------------------------------------------------------- R9.3
     orch = F.fn1("nifly::NifFile::DeleteVertsForShape")
     recv_types = []
-    for n in walk(orch["body"]):
+    for n in walk(F.inl(orch)["body"]):  # inline view: the skin part may live in a local lambda or private helper
         if n["k"] == "Call" and n.get("short") == NOTIFY and n.get("virt"):
             t = (n["recv"].get("ct") or n["recv"].get("t") or "").replace("*", "").replace("const ", "").strip()
             recv_types.append(t)
